@@ -464,6 +464,36 @@ def seal_rules(fb, ctx):
     mirq.must_pass(fb, ctx, b, r"crypto::TokenNext::keypair$", "SEAL", "seal needs the secret (refused on a sealed token)", "SEAL|needs-secret")
 
 
+def last_block_rules(fb, ctx):
+    """LASTBLOCK: the seal covers the LAST block of the chain (signer and verifier), and requests / appends start from it."""
+    def selectors(h):
+        out = []
+        isblocks = lambda z: isinstance(z, dict) and strip_a(z).get("k") == "field" and strip_a(z).get("name") == "blocks"
+        for z in find_all(h["body"], lambda z: z.get("k") == "index" and isblocks(z.get("e"))):
+            i = strip_a(z["idx"])
+            last = i.get("k") == "binary" and i.get("op") == "Sub" and hirq.literal(i["b"]) == 1 and bool(find_all(i["a"], lambda y: y.get("k") == "mcall" and y.get("name") == "len" and isblocks(y.get("recv"))))
+            rng = i.get("k") == "struct"      # a range: `&self.blocks[..]` is not a selector of one block
+            if not rng:
+                out.append(("last" if last else f"[{hirq.literal(i) if hirq.literal(i) is not None else '?'}]", z["ln"]))
+        for z in find_all(h["body"], lambda z: z.get("k") == "mcall" and z.get("name") in ("first", "last", "get", "first_mut", "last_mut") and isblocks(z.get("recv"))):
+            out.append(("last" if z["name"].startswith("last") else z["name"], z["ln"]))
+        return out
+    n = 0
+    for fn in (F + "::seal", F + "::verify_inner", F + "::last_block"):
+        b = fb.body(fn)
+        sel = selectors(fb.hir_of(b))
+        n += len(sel)
+        bad = [(w, ln) for w, ln in sel if w != "last"]
+        ctx.check(bool(sel) and not bad, "LASTBLOCK", f"{fn.split('::')[-1]}: the block selected from self.blocks is the last one", f"LASTBLOCK|{fn.split('::')[-1]}", f"block selector(s) {bad or 'none found'}: the seal / next request must be computed from the last block of the chain (`blocks[len - 1]` or `blocks.last()`), which is the one the verifier checks the seal against", f"{b['file']}:{(bad[0][1] if bad else b['line'])}")
+    ctx.floor("single-block selectors on SerializedBiscuit.blocks", n, 3)
+
+
+def strip_a(n):
+    while isinstance(n, dict) and (n.get("k") in ("addr", "use") or (n.get("k") == "unary" and n.get("op") == "Deref")):
+        n = n["e"] if n.get("k") in ("addr", "use") else n["a"]
+    return n if isinstance(n, dict) else {}
+
+
 def needs_secret_rules(fb, ctx):
     # TokenNext::keypair: Seal -> Err(AlreadySealed)
     b = fb.body(C + "::TokenNext::keypair")
@@ -601,6 +631,10 @@ def wire_rules(fb, ctx):
         for f, src in (("root_key_id", "arg1.root_key_id"), ("proof", "arg1.proof")):
             lv = mirq.operand_leaves(fb, tb, mirq.agg_field(top[0], f))
             ctx.check(mirq.has_leaf(lv, src), "WIRE", f"to_proto: Biscuit.{f} <- self.{f}", f"WIRE|to_proto|{f}", f"field depends on {sorted(l for l in lv if l.startswith('arg'))}", where_t)
+            if f == "root_key_id":
+                # an Option<u32> copied as is: Some(0) is a key id like any other, it must not be normalised away
+                vs = mirq.verbatim_source(tb, mirq.agg_field(top[0], f))
+                ctx.check(vs == ("arg1", [".root_key_id"]), "WIRE", "to_proto: root_key_id is copied verbatim", "WIRE|to_proto|root_key_id|verbatim", f"the written value is not a plain copy of self.root_key_id on every path (found {vs}): the id is transformed or filtered on the way out (e.g. Some(0) dropped), so the token no longer names the key it was built for", where_t)
     # version written as None iff 0
     th = fb.hir_of(tb)
     vifs = [n for n in find_all(th["body"], lambda n: n.get("k") == "if") if (lambda c: c.get("k") == "binary" and c.get("op") == "Gt" and strip(c["a"]).get("name") == "version" and hirq.literal(c["b"]) == 0)(strip(n["cond"]))]
